@@ -159,7 +159,7 @@ func genCase(rt *rapid.T) Case {
 	weights := make([]int, nOps)
 	for k, v := range map[int]int{opRawOpen: 4, opRawSub: 18, opRawUnsub: 5, opRawPub: 30, opRawClose: 3, opCliSub: 12,
 		opCliUnsub: 4, opCliPub: 10, opCliKill: 2, opEvict: 3, opRevalidate: 3, opSetMember: 3, opRelayCloseSpace: 2,
-		opCliCloseSpace: 2, opAdvance: 3, opCliSync: 1, opSubCloseRace: 3} {
+		opCliCloseSpace: 2, opAdvance: 3, opCliSync: 1, opSubCloseRace: 3, opSubTagRace: 4} {
 		weights[k] = v
 	}
 	for n := rapid.IntRange(3, 36).Draw(rt, "nOps"); n > 0; n-- {
@@ -219,6 +219,11 @@ func genCase(rt *rapid.T) Case {
 			op.S, op.Sp = sel(), rapid.IntRange(0, 1).Draw(rt, "sp")
 		case opAdvance:
 			op.Flag = weighted(rt, "dur", []int{3, 3, 1})
+		case opSubTagRace:
+			op.S, op.Sp, op.P, op.Flag = sel(), rapid.IntRange(0, 1).Draw(rt, "sp"), newPats(1, 2), rapid.IntRange(0, 4).Draw(rt, "event")
+			if rapid.IntRange(0, 4).Draw(rt, "noSibling") == 0 {
+				op.Flag |= 8
+			}
 		case opSubCloseRace:
 			op.S, op.Sp, op.P, op.Flag = sel(), rapid.IntRange(0, 1).Draw(rt, "sp"), newPats(1, 2), rapid.IntRange(0, 1).Draw(rt, "flag")
 		}
@@ -313,6 +318,21 @@ func TestRegSubscribeVsClose(t *testing.T) {
 			{K: opRawSub, S: 1, P: [][]int{{sgA, sgTail}}},
 			{K: opSubCloseRace, S: 0, P: [][]int{{sgA, sgStar}, {sgB}}, Flag: flag},
 			{K: opRawPub, S: 0, P: [][]int{{sgA, sgB}}, Acc: -1},
+		}}, run)
+	}
+}
+
+// the subscribing stream dies / is evicted / its space closes exactly between "interest
+// recorded" and "tags registered" while a sibling stream holds the same patterns
+func TestRegSubscribeParkedAtTagging(t *testing.T) {
+	outerT = t
+	for flag := 0; flag <= 4; flag++ {
+		vstat.One(t, prop, Case{Kind: kindSeq, NAcc: 3, NClients: 1, Ops: []Op{
+			{K: opRawOpen, Acc: 0}, {K: opRawOpen, Acc: 1}, {K: opRawOpen, Acc: 2},
+			{K: opSubTagRace, S: 0, P: [][]int{{sgA, sgTail}, {sgB}}, Flag: flag},
+			{K: opRawPub, S: 2, P: [][]int{{sgA, sgB}}, Acc: -1},
+			{K: opRawSub, S: 2, P: [][]int{{sgA, sgTail}}},
+			{K: opRawPub, S: 2, P: [][]int{{sgA, sgB}}, Acc: -1},
 		}}, run)
 	}
 }
